@@ -67,6 +67,7 @@ type InlineFunc func(call *ast.CallExpr, tail bool) *InlineDecision
 // passed by value that the helper modifies: the modification is made to the copy).
 type InlineDecision struct {
 	Decl *ast.FuncDecl
+	Orig *ast.FuncDecl // the declaration in the source when Decl is a copy
 	Bind map[*ast.Ident]bool
 }
 
@@ -75,6 +76,7 @@ type InlineDecision struct {
 type InlinedCall struct {
 	Call   *ast.CallExpr
 	Decl   *ast.FuncDecl
+	Orig   *ast.FuncDecl
 	Subst  map[*ast.Ident]ast.Expr // parameter (its declaring identifier) -> argument expression
 	Bound  []*ast.Ident
 	Lhs    []ast.Expr // variables assigned from the helper's results
@@ -724,7 +726,10 @@ func (b *builder) tryInline(s ast.Stmt) bool {
 	if !ok {
 		return false
 	}
-	ic := &InlinedCall{Call: call, Decl: decl, Subst: map[*ast.Ident]ast.Expr{}, Lhs: lhs, Parent: b.parent}
+	ic := &InlinedCall{Call: call, Decl: decl, Orig: dec.Orig, Subst: map[*ast.Ident]ast.Expr{}, Lhs: lhs, Parent: b.parent}
+	if ic.Orig == nil {
+		ic.Orig = decl
+	}
 	callFree := func(e ast.Expr) bool {
 		pure := true
 		ast.Inspect(e, func(n ast.Node) bool {
